@@ -3,8 +3,11 @@
    frame bound.  C05 / C11 are imported qualified (their models reuse names such as [frame]). *)
 From Coq Require Import Lia.
 From RM Require Import C08.Model C08.Proofs C03.Model C03.Proofs.
-From RM Require C11.Model C11.Proofs2 C11.Properties.
-From RM Require C05.Model C05.Proofs C05.Driver C05.Properties.
+(* c11_func_sound / c11_line_sound are `exact func_sound` / `exact line_sound` of C11.Proofs5, and C05's c03_frame_bound is
+   `frame_bound` of C05.Proofs: the lemmas are imported from the proof files, so that this build does not depend on the
+   other owners' Properties.v (still being extended). *)
+From RM Require C11.Model C11.Proofs2 C11.Proofs5.
+From RM Require C05.Model C05.Proofs.
 Open Scope Z_scope.
 
 (* the StackFrame fields the printers read, as fill_source_line_info leaves them for a frame at
@@ -25,8 +28,8 @@ Lemma frame_of_ok p rf mbase instr o :
   C11.Model.symbolize p rf mbase instr = Ret o -> frame_ok (frame_of instr mbase o).
 Proof.
   intros Hwf Hm Hmi Hi Hs.
-  destruct (C11.Properties.c11_func_sound p rf mbase instr Hwf Hm Hi) as [o1 [E1 [_ F]]].
-  destruct (C11.Properties.c11_line_sound p rf mbase instr Hwf Hm Hi) as [o2 [E2 L]].
+  destruct (C11.Proofs5.func_sound p rf mbase instr Hwf Hm Hi) as [o1 [E1 [_ F]]].
+  destruct (C11.Proofs5.line_sound p rf mbase instr Hwf Hm Hi) as [o2 [E2 L]].
   rewrite Hs in E1, E2. inversion E1; inversion E2; subst o1 o2. clear E1 E2.
   destruct Hwf as [Wf [Wp _]].
   unfold frame_ok, frame_of, below; cbn [f_instr f_module f_fbase f_sbase].
